@@ -273,12 +273,12 @@ def okPost (S : SF) : Bool :=
   S.depthOneHtmlRule && S.disableAssetsRule == "whenNoHops" && S.only200Extracted && S.assetsBecomeChildren && S.outlinkDomainsCrawlRule &&
   S.outlinksIncludeAssetOutlinks && S.postCompletionRule && S.postWorksAtMaxDepth && S.outlinkHopsOp == .lt &&
   S.outlinkGuardShape && S.outlinkHopsPlusOne && S.assetHopsSame && S.assetOutlinkHopsPlusOne && S.assetSelfDuplicateRemoved &&
-  S.assetGuardShape
+  S.assetGuardShape && S.postTestsUnderstood
 
 theorem okPost_ops {S : SF} (h : okPost S = true) :
     S.redirectLimitOp = .ge ∧ S.depthCutOp = .gt ∧ S.depthCut = 2 ∧ S.outlinkHopsOp = .lt := by
   simp only [okPost, Bool.and_eq_true, beq_iff_eq] at h
-  obtain ⟨⟨⟨⟨⟨⟨⟨⟨⟨⟨⟨⟨⟨⟨⟨⟨⟨⟨⟨⟨⟨⟨_, _⟩, h3⟩, _⟩, _⟩, h6⟩, h7⟩, _⟩, _⟩, _⟩, _⟩, _⟩, _⟩, _⟩, _⟩, _⟩, h17⟩, _⟩, _⟩, _⟩, _⟩, _⟩, _⟩ := h
+  obtain ⟨⟨⟨⟨⟨⟨⟨⟨⟨⟨⟨⟨⟨⟨⟨⟨⟨⟨⟨⟨⟨⟨⟨_, _⟩, h3⟩, _⟩, _⟩, h6⟩, h7⟩, _⟩, _⟩, _⟩, _⟩, _⟩, _⟩, _⟩, _⟩, _⟩, h17⟩, _⟩, _⟩, _⟩, _⟩, _⟩, _⟩, _⟩ := h
   exact ⟨h3, h6, h7, h17⟩
 
 /-- a redirect is followed only below the limit; the target carries one more redirect and the page's hops -/
